@@ -131,10 +131,6 @@ FloatIsExactlyDec(r, n, sc) ==
   ELSE IF r.e >= 0 THEN MMul(MShl(r.m, r.e), MPow10(sc)) = n.m
   ELSE MMul(r.m, MPow10(sc)) = MShl(n.m, -r.e)
 
-\* the decimal nearest to a finite float (exact value m * 2^e = m * 5^k / 10^k for e = -k < 0)
-DecOfFloat(f) == IF f.e >= 0 THEN DFit(f.s, MShl(f.m, f.e), 0)
-                 ELSE DFit(f.s, MMul(f.m, MPow5(-f.e)), -f.e)
-
 TimeUnit(kind, v) == \* week/day/hour/minute/second on Int (constructor) and Dur (extractor)
   IF v.t = "Int" THEN LET ns == ZMul(v.n, UnitNs(kind)) IN
                       IF DurInRange(ns) THEN Ok(VDur(ns)) ELSE ErrP("Bounds", v)
@@ -174,12 +170,13 @@ Unary(kind, v) ==
            [] v.t = "Float" ->
                 IF v.f.c # "fin" THEN ErrP("Cast", v)
                 ELSE IF v.f.m = <<>> THEN Ok(VDec(ZZero, 0))
-                ELSE IF MBitLen(v.f.m) + v.f.e > 96 THEN ErrP("Cast", v)       \* |x| >= 2^96
-                ELSE IF MBitLen(v.f.m) + v.f.e < -100 THEN OkA(VDec(ZZero, 0), "decTiny")  \* |x| < 2^-100
-                ELSE LET d == DecOfFloat(v.f) IN
-                     \* exact only when the exact decimal expansion is short: the conversion keeps about 15 significant digits
-                     IF d.exact /\ Len(MDigits(DStrip(d.n.m, d.sc, 0)[1])) <= 15 THEN Ok(VDec(d.n, d.sc))
-                     ELSE OkA(VDec(d.n, d.sc), "dec15")   \* within 15 significant digits
+                ELSE \* the library's conversion, transcribed step by step (Decimal.tla, Base2ToDecimal): exact
+                     LET L == MBitLen(v.f.m)
+                         normal == L + v.f.e - 1 >= -1022
+                         M == IF normal THEN MShl(v.f.m, 53 - L) ELSE MShl(v.f.m, v.f.e + 1074)
+                         E2 == IF normal THEN v.f.e - (53 - L) ELSE -1074
+                         r == Base2ToDecimal(M, E2)
+                     IN IF r.k = "none" THEN ErrP("Cast", v) ELSE Ok(VDec(Z(v.f.s, r.m), r.sc))
            [] v.t = "Dec" -> Ok(v)
            [] v.t = "Str" -> LET d == ParseDecStr(v.cs) IN
                              IF d.k = "invalid" THEN ErrP("Cast", v)
